@@ -137,6 +137,7 @@ func C08(c *hx.Ctx) {
 	c.Assumptions = []string{"TLC", "ref LZMA2 decoder (independent of /repo)", "chunk attribution to calls by sink offsets"}
 	c.DesignCheck(tlc.Opts{Module: "Lzma2Writer", Cfg: "Lzma2Writer_mc.cfg", Timeout: 3 * time.Minute}, []string{"BeginWrite", "BeginFlush", "BeginClose", "EmitChunk", "EndWrite", "EndFlush", "EndClose"})
 	configTable(c, "lzma2")
+	lemmaBroken := marginLemma(c)
 	small := map[string]int{"W0": 0, "W1": 0, "W273": 0, "W4Kz": 0, "F": 0, "C": 0}
 	big := map[string]int{"W0": 0, "W1": 0, "W4K": 0, "W70Kr": 2, "W70Kt": 2, "W140Kn": 2, "W80Krr": 2, "W2M": 3, "W5Mrz": 3, "F": 0, "C": 0}
 	hs := genHistories(c, tokenSet(small), c.Pick(5, 6), 0, 2)
@@ -235,4 +236,46 @@ func C08(c *hx.Ctx) {
 		}
 	}
 	c.Extra["op_traces_validated"] = ops.cases
+	// Verdicts come from behaviour: a broken design lemma alone is "not shown safe" (exit 2); together
+	// with failing calls of the real writer (the margin families above) it is the explanation.
+	if lemmaBroken != "" {
+		if c.Violations() > 0 {
+			c.Violation(map[string]string{"kind": "chunk-margin-too-small", "writer": "lzma2"}, lemmaBroken, map[string]any{"how": "lzma/export_verif.go constants judged by spec/OpCost.tla"})
+		} else {
+			c.Inconclusive("%s - but no call of the real writer failed on the inputs tried", lemmaBroken)
+		}
+	}
+}
+
+// marginLemma binds OpCost.tla to the code: the encoder's end-of-chunk margin and probability
+// model constants are read through the verif-tagged export of /repo, TLC decides whether the
+// margin covers the most expensive operation plus what closing the range encoder needs.
+func marginLemma(c *hx.Ctx) (broken string) {
+	margin, probBits, moveBits, ok := encoderConsts()
+	if !ok {
+		c.Logf("OpCost lemma not bound: no verif-tagged export in the tree under judgement")
+		return ""
+	}
+	cfg := fmt.Sprintf("SPECIFICATION Spec\nCONSTANTS Margin = %d\n ProbBits = %d\n MoveBits = %d\nCHECK_DEADLOCK FALSE\n", margin, probBits, moveBits)
+	r := c.TLC(tlc.Opts{Module: "OpCost", Cfg: "m.cfg", Files: map[string][]byte{"m.cfg": []byte(cfg)}, Timeout: 2 * time.Minute})
+	var m struct {
+		Kind         string
+		Margin, Need int
+		Ok           bool
+	}
+	for _, p := range r.Printed {
+		if json.Unmarshal([]byte(p), &m) == nil && m.Kind == "opcost" {
+			break
+		}
+	}
+	if !r.OK || m.Kind != "opcost" {
+		c.Inconclusive("OpCost lemma not evaluated: %s %s\n%s", r.Violation, r.ErrText, r.Tail(8))
+		return ""
+	}
+	c.Count(1, 1)
+	c.Extra["opcost_lemma"] = map[string]any{"margin": m.Margin, "need": m.Need, "ok": m.Ok, "probBits": probBits, "moveBits": moveBits}
+	if !m.Ok {
+		return fmt.Sprintf("the encoder reserves %d bytes before an operation, but the most expensive operation plus closing the range encoder needs %d (OpCost.tla): inputs exist on which Flush/Close fail with 'limit reached' and the chunk's data is lost", m.Margin, m.Need)
+	}
+	return ""
 }
